@@ -1,6 +1,7 @@
 /- C02 line-protocol driver: `lake env lean --run Verif/C02/Driver.lean` -/
 import Verif.Common.Proto
 import Verif.C02.Model
+import Verif.C02.Lexer
 open Lean Verif.Proto Verif.C02 Verif.Codec
 
 namespace Verif.C02.Driver
@@ -171,7 +172,21 @@ def handle (j : Json) : Except String Json := do
     let sdDec : Json :=
       if single then jEx (fun (p : DMRS × List T) => jDMRS p.1) (decDmrs toks.flatten)
       else jEx (jList jDMRS) (decodeList toks.flatten)
-    let sd := Json.mkObj [("text", cps (encListText o indent ds)), ("toks", jList (jList jTok) toks), ("dec", sdDec)]
+    let flat := encListText o none ds
+    let lexed : Json := match lexText flat with
+      | some ts => jOk (jList jTok ts)
+      | none => jErr "DMRSSyntaxError"
+    let lexInd : Json := match lexText (encListText o indent ds) with
+      | some ts => jOk (jList jTok ts)
+      | none => jErr "DMRSSyntaxError"
+    let decText : Json :=
+      if single then jEx jDMRS (decodeText flat) else jEx (jList jDMRS) (decodeTextList flat)
+    let sd := Json.mkObj [("text", cps (encListText o indent ds)), ("toks", jList (jList jTok) toks), ("dec", sdDec),
+                          ("render", cps (encodeTextList o ds)), ("lexflat", lexed), ("lexindent", lexInd),
+                          ("renderindent", match indent with
+                            | some k => cps (encodeTextIndentList o k ds)
+                            | none => Json.null),
+                          ("dectext", decText)]
     let x := jList (fun d => Json.mkObj [("enc", jEx jX (toXml o d)), ("dec", jEx jDMRS (bindEx (toXml o d) ofXml))]) ds
     let jj := jList (fun d => Json.mkObj [("enc", jJV (toDict o d)), ("dec", jEx jDMRS (fromDict (toDict o d)))]) ds
     let p := jList (fun d => Json.mkObj [("enc", jEx (jList jTriple) (toTriples o d)),
@@ -182,6 +197,10 @@ def handle (j : Json) : Except String Json := do
     let single ← getBool j "single"
     if single then pure (jEx (fun (p : DMRS × List T) => jDMRS p.1) (decDmrs toks))
     else pure (jEx (jList jDMRS) (decodeList toks))
+  | "lex" => do
+    match lexText (← getCps j "text") with
+    | some ts => pure (jOk (jList jTok ts))
+    | none => pure (jErr "DMRSSyntaxError")
   | "x_dec" => do pure (jEx jDMRS (ofXml (← ofX (← j.getObjVal? "x"))))
   | "j_dec" => do pure (jEx jDMRS (fromDict (← ofJV (← j.getObjVal? "j"))))
   | "p_dec" => do pure (jEx jDMRS (fromTriples (← (← Verif.Proto.getArr j "triples").mapM ofTriple)))
